@@ -137,7 +137,13 @@ func subParts(r *core.Rng, base []yang.Interval, mergeAdjacent bool) []yang.Inte
 		a := randIn(r, lo, h.Hi)
 		b := randIn(r, a, h.Hi)
 		out = append(out, yang.Interval{Lo: a, Hi: b})
-		cursor = add(b, 2)
+		// (the next part leaves a gap, or — whole numbers only — starts right behind this one: adjacent parts
+		// are disjoint, and a later restriction may reach across the seam)
+		gap := int64(2)
+		if mergeAdjacent && r.Chance(1, 3) {
+			gap = 1
+		}
+		cursor = add(b, gap)
 		// maybe a second part inside the same host
 		if len(out) < n && cursor.Cmp(h.Hi) <= 0 && r.Bool() {
 			a2 := randIn(r, cursor, h.Hi)
